@@ -6,6 +6,8 @@ import (
 	"testing"
 
 	"github.com/nspcc-dev/neo-go/pkg/compiler"
+	"github.com/nspcc-dev/neo-go/pkg/core/native/nativehashes"
+	"github.com/nspcc-dev/neo-go/pkg/crypto/keys"
 	"github.com/nspcc-dev/neo-go/pkg/neotest"
 	"github.com/nspcc-dev/neo-go/pkg/smartcontract"
 	"github.com/nspcc-dev/neo-go/pkg/smartcontract/manifest"
@@ -160,5 +162,69 @@ func StoreContract(t testing.TB, sender util.Uint160, name string, version int) 
 	m.Name = name
 	c := &neotest.Contract{NEF: base.NEF, Manifest: &m, DebugInfo: base.DebugInfo}
 	c.Hash = contractHash(sender, c.NEF.Checksum, name)
+	return c
+}
+
+// ManifestVariants is the number of manifest shapes StoreContractVariant knows.
+const ManifestVariants = 6
+
+var variantKey = func() *keys.PublicKey {
+	k, err := keys.NewPrivateKeyFromHex("00000000000000000000000000000000000000000000000000000000000000aa")
+	if err != nil {
+		panic(err)
+	}
+	return k.PublicKey()
+}()
+
+// StoreContractVariant is StoreContract with one of several manifest shapes
+// whose meaning differs (what the contract may call, whom it trusts), so that
+// every form of the permission and trust lists goes through deployment, the
+// Management cache and a restart:
+//
+//	0 wildcard permission (may call anything)
+//	1 one permission "any contract, no methods" (may call nothing)
+//	2 GAS with an empty method list, ContractManagement with a wildcard one
+//	3 exact method lists for GAS and ContractManagement, a trust list
+//	4 a permission for a group none of the natives belongs to (may call nothing)
+//	5 no permissions at all, wildcard trusts
+func StoreContractVariant(t testing.TB, sender util.Uint160, name string, version, variant int) *neotest.Contract {
+	c := StoreContract(t, sender, name, version)
+	m := c.Manifest
+	perm := func(d manifest.PermissionDesc, wild bool, methods ...string) manifest.Permission {
+		p := manifest.Permission{Contract: d}
+		if wild {
+			p.Methods.Restrict() // then make it a wildcard again below
+			p.Methods = manifest.WildStrings{}
+		} else {
+			p.Methods.Restrict()
+			p.Methods.Value = append([]string{}, methods...)
+		}
+		return p
+	}
+	hashDesc := func(h util.Uint160) manifest.PermissionDesc {
+		return manifest.PermissionDesc{Type: manifest.PermissionHash, Value: h}
+	}
+	switch variant % ManifestVariants {
+	case 0:
+	case 1:
+		m.Permissions = []manifest.Permission{perm(manifest.PermissionDesc{Type: manifest.PermissionWildcard}, false)}
+	case 2:
+		m.Permissions = []manifest.Permission{
+			perm(hashDesc(nativehashes.GasToken), false),
+			perm(hashDesc(nativehashes.ContractManagement), true),
+		}
+	case 3:
+		m.Permissions = []manifest.Permission{
+			perm(hashDesc(nativehashes.GasToken), false, "transfer"),
+			perm(hashDesc(nativehashes.ContractManagement), false, "destroy", "update"),
+		}
+		m.Trusts.Restrict()
+		m.Trusts.Value = []manifest.PermissionDesc{hashDesc(nativehashes.GasToken), {Type: manifest.PermissionGroup, Value: variantKey}}
+	case 4:
+		m.Permissions = []manifest.Permission{perm(manifest.PermissionDesc{Type: manifest.PermissionGroup, Value: variantKey}, true)}
+	case 5:
+		m.Permissions = []manifest.Permission{}
+		m.Trusts = manifest.WildPermissionDescs{Wildcard: true}
+	}
 	return c
 }
